@@ -323,3 +323,117 @@ def rule_confine(db, chk, cfg, rule="CONFINE"):
     if n < 5:
         raise AnalysisBroken("only %d branches on using_polytree_ found (expected >= 5)" % n)
     return n
+
+
+class _StartReset(Client):
+    """state: True once startOp has been assigned since the vertex was removed."""
+
+    def __init__(self):
+        self.exits = []
+
+    def join(self, a, b):
+        return a and b
+
+    def stmt(self, node, st):
+        for x in walk(node):
+            if x.get("kind") == "BinaryOperator" and x.get("opcode") == "=" and canon(kids(x)[0]) == "startOp" and canon(kids(x)[1]) == "op2":
+                st = True
+        return st
+
+    def on_return(self, node, st):
+        pass
+
+
+def rule_removal_restart(db, chk, cfg, rule="REMOVAL.restart"):
+    """CleanCollinear: after every removal the lap restarts at the current vertex (startOp = op2) before the scan continues,
+    so that the neighbours of a removed vertex are examined again and the loop only ends after a full lap without removal."""
+    from ..flow import _Ctx
+    f = db.one("ClipperBase::CleanCollinear")
+    site = None
+    for x in walk(f.body):
+        if x.get("kind") == "IfStmt":
+            cond, then, els = if_parts(x)
+            if "IsCollinear(" in canon(cond) and any(y.get("kind") == "CallExpr" and db.callee(y)[0] == "DisposeOutPt" for y in walk(then)):
+                site = (x, then)
+    if site is None:
+        raise AnalysisBroken("removal branch of CleanCollinear not found")
+    node, then = site
+    # statements after the DisposeOutPt call inside the removal branch
+    sts = kids(then) if then.get("kind") == "CompoundStmt" else [then]
+    idx = None
+    for i, s in enumerate(sts):
+        if any(y.get("kind") == "CallExpr" and db.callee(y)[0] == "DisposeOutPt" for y in walk(s)):
+            idx = i
+    tail = {"kind": "CompoundStmt", "inner": sts[idx + 1:]}
+    cl = _StartReset()
+    w = Walker(cl)
+    ctx = _Ctx()
+    w.loops.append(ctx)
+    out = w.run(tail, False)
+    w.loops.pop()
+    back = [s for s in [out] + ctx.continues if s is not None]
+    ok = bool(back) and all(back)
+    chk.instance(rule, {"function": f.qual, "paths_back_into_the_scan": len(back), "all_reset_startOp": ok, "cfg": cfg}, ok=ok)
+    if not ok:
+        chk.violation(rule, f.qual, "startOp", "after removing a vertex CleanCollinear can continue the scan without `startOp = op2`: the lap may "
+                      "end before the neighbours of the removed vertex have been examined again, leaving a spike or a collinear vertex", where(node), cfg=cfg)
+    return 1
+
+
+class _Deepest(Client):
+    """state: True once CheckSplitOwner(outrec, split->splits) has been evaluated for the current split."""
+
+    def __init__(self, db, fname):
+        self.db, self.fname = db, fname
+        self.bad = []
+        self.assigns = 0
+
+    def join(self, a, b):
+        return a and b
+
+    def _scan(self, node, st):
+        for x in walk(node):
+            if x.get("kind") == "CXXMemberCallExpr" and self.db.callee(x)[0] == self.fname:
+                args = self.db.call_args(x)
+                if len(args) == 2 and canon(args[1]) == "split->splits":
+                    st = True
+            if x.get("kind") == "BinaryOperator" and x.get("opcode") == "=" and canon(kids(x)[0]) == "outrec->owner" and canon(kids(x)[1]) == "split":
+                self.assigns += 1
+                if not st:
+                    self.bad.append(x)
+        return st
+
+    def stmt(self, node, st):
+        return self._scan(node, st)
+
+    def cond_atom(self, e, st):
+        # `split->splits && CheckSplitOwner(outrec, split->splits)`: when split->splits is null there is nothing deeper
+        e0 = _u(e)
+        if canon(e0) == "split->splits":
+            return st, True
+        s = self._scan(e, st)
+        return s, s
+
+
+def rule_deepest_first(db, chk, cfg, rule="OWNER.deepest-first"):
+    """CheckSplitOwner: an outrec is assigned to `split` as owner only after the splits of `split` have been searched
+    (and did not contain it): the innermost containing split becomes the owner."""
+    f = db.one("ClipperBase::CheckSplitOwner")
+    loops = [x for x in kids(f.body) if x.get("kind") == "CXXForRangeStmt"]
+    if len(loops) != 1:
+        raise AnalysisBroken("loop over splits in CheckSplitOwner not found")
+    body = kids(loops[0])[-1]
+    cl = _Deepest(db, "CheckSplitOwner")
+    from ..flow import _Ctx
+    w = Walker(cl)
+    w.loops.append(_Ctx())
+    w.run(body, False)
+    w.loops.pop()
+    if cl.assigns < 1:
+        raise AnalysisBroken("`outrec->owner = split` not found in CheckSplitOwner")
+    ok = not cl.bad
+    chk.instance(rule, {"function": f.qual, "owner_assignments": cl.assigns, "cfg": cfg}, ok=ok)
+    if not ok:
+        chk.violation(rule, f.qual, "outrec->owner=split", "CheckSplitOwner can make `split` the owner without having searched split->splits first: a polygon "
+                      "inside a split of a split is attached one level too high (wrong depth / IsHole alternation in the PolyTree)", where(cl.bad[0]), cfg=cfg)
+    return 1
